@@ -291,3 +291,36 @@ func DeferredCalls(body *ast.BlockStmt, intoLits bool) []*ast.CallExpr {
 	})
 	return out
 }
+
+// ReachableNodes returns every CFG node reachable from just after `from`, not passing through
+// a node for which barrier is true (the barrier node itself is not included), following only
+// edges accepted by edgeOK (nil = all).
+func ReachableNodes(g *cfg.CFG, from CFGPoint, barrier func(ast.Node) bool, edgeOK func(b *cfg.Block, succ int) bool) []ast.Node {
+	var out []ast.Node
+	visited := map[*cfg.Block]bool{}
+	var walk func(b *cfg.Block, i int)
+	walk = func(b *cfg.Block, i int) {
+		for ; i < len(b.Nodes); i++ {
+			n := b.Nodes[i]
+			if barrier != nil && barrier(n) {
+				return
+			}
+			out = append(out, n)
+			if _, ok := n.(*ast.ReturnStmt); ok {
+				return
+			}
+		}
+		for si, s := range b.Succs {
+			if edgeOK != nil && !edgeOK(b, si) {
+				continue
+			}
+			if visited[s] {
+				continue
+			}
+			visited[s] = true
+			walk(s, 0)
+		}
+	}
+	walk(from.B, from.I+1)
+	return out
+}
